@@ -1589,3 +1589,8 @@ mod tests {
         assert_eq!(ids, vec![id3, id1, id3]);
     }
 }
+
+// verification hook (guard: cfg(kani), set only by the Kani compiler): harnesses live in /verif/kani
+#[cfg(kani)]
+#[path = "/verif/kani/snapshotfile.rs"]
+mod verif_kani;
